@@ -67,6 +67,8 @@ def binding_selftest(ctx, cases, v):
         return (any(e["ev"] == "set" for e in evs) and evs[-1]["ev"] == "end"
                 and any(evs[i]["ev"] == "fwd" and evs[i + 1]["ev"] == "fwd" for i in range(len(evs) - 1)))
     good = [k for k in cases if k not in v.violations and ok(cases[k])]
+    if not good and v.violations:
+        return {"skipped": "no accepted case to corrupt (every candidate case was rejected)"}
     if not good:
         raise c.ToolError("binding self-test: no accepted case with set decisions and two consecutive forwarded messages")
     base = cases[good[0]]
@@ -198,7 +200,7 @@ def check(ctx):
     nrand = 400 if quick else 5000
     tmp = ctx.path("tmp")
     os.makedirs(tmp, exist_ok=True)
-    info = drive(binp, ["--tmp", tmp, "--export-every", "2" if quick else "4", "--tables", ctx.path("tables.json"), "--scenarios", scn, "--seed", str(ctx.seed), "--random", str(nrand),
+    info = drive(binp, ["--deviating-cap", "150", "--tmp", tmp, "--export-every", "2" if quick else "4", "--tables", ctx.path("tables.json"), "--scenarios", scn, "--seed", str(ctx.seed), "--random", str(nrand),
                         "--sample", "120" if quick else "600", "--paced-every", "10" if quick else "25", "--paced-random", "30" if quick else "100", "--max-len", "40" if quick else "200"], trace)
     st = info["stats"]
     for k in ("stream_context_runs_1_portions", "stream_context_runs_2_portions", "stream_context_runs_3_portions",
